@@ -885,18 +885,8 @@ func checkMintedNetblocks(c *km.Ctx, rule string) {
 				continue
 			}
 			a := km.CallArgs(ci.Common())
-			ok := len(a) > 4 && a[4] != nil && mentionsField(a[4], "RequestorNetblocks") && km.NamedTypeOf(a[4].Type()) == ""
-			if ok {
-				u, isU := km.Unwrap(a[4]).(*ssa.UnOp)
-				fa, isF := (ssa.Value)(nil), false
-				if isU {
-					_, isF = u.X.(*ssa.FieldAddr)
-				}
-				_ = fa
-				if _, isFld := km.Unwrap(a[4]).(*ssa.Field); !isF && !isFld {
-					ok = false
-				}
-			}
+			// mentionsField is true only for a field read (load of a field address, or a field of a struct value)
+			ok := len(a) > 4 && a[4] != nil && mentionsField(a[4], "RequestorNetblocks")
 			got := "<none>"
 			if len(a) > 4 && a[4] != nil {
 				got = km.ValStr(a[4])
